@@ -137,11 +137,11 @@ pub fn run_op(db: &FixtureDatabase, op: &WOp, executed: &mut BTreeSet<&'static s
             executed.insert(if *fresh { "analyze_file_fresh" } else { "analyze_file" });
         }
         WOp::Close(p) => {
-            db.cleanup_file_cache(Path::new(PATHS[*p as usize % 4]));
+            db.cleanup_file_cache(Path::new(&path_of(*p)));
             executed.insert("cleanup_file_cache");
         }
         WOp::Query(k, p, l) => {
-            let path = PathBuf::from(PATHS[*p as usize % 4]);
+            let path = PathBuf::from(path_of(*p));
             let k = *k as usize % 14;
             executed.insert(QUERY_NAMES[k]);
             match k {
@@ -203,6 +203,9 @@ pub fn run_op(db: &FixtureDatabase, op: &WOp, executed: &mut BTreeSet<&'static s
 pub struct Workload {
     pub ops: Vec<WOp>,
     pub collide: bool,
+    /// 0 = in-memory paths, 1 = existing files, 2 = existing files named through a symlinked directory
+    #[serde(default)]
+    pub disk: u8,
 }
 
 static ENTRY_POINTS: std::sync::Mutex<BTreeSet<&'static str>> = std::sync::Mutex::new(BTreeSet::new());
@@ -219,6 +222,29 @@ pub fn check_workload(w: &Workload, info: &mut CaseInfo) -> Outcome {
 }
 
 fn check_workload_inner(w: &Workload, info: &mut CaseInfo) -> Outcome {
+    struct Tree(Option<String>);
+    impl Drop for Tree {
+        fn drop(&mut self) {
+            *ROOT_OVERRIDE.lock().unwrap() = None;
+            if let Some(b) = &self.0 {
+                let _ = std::fs::remove_dir_all(b);
+            }
+        }
+    }
+    let mut tree = Tree(None);
+    if w.disk % 3 > 0 {
+        let base = format!("/dev/shm/verif-{}-c12w-{}", std::process::id(), SESS_N.fetch_add(1, std::sync::atomic::Ordering::SeqCst));
+        let real = format!("{}/s", base);
+        let _ = std::fs::create_dir_all(format!("{}/a", real));
+        let _ = std::fs::create_dir_all(format!("{}/b", real));
+        for p in PATHS {
+            let _ = std::fs::write(p.replacen("/vw/s", &real, 1), "");
+        }
+        let root = if w.disk % 3 == 2 && std::os::unix::fs::symlink(&real, format!("{}/l", base)).is_ok() { format!("{}/l", base) } else { real };
+        info.classes.push(if root.ends_with("/l") { "paths via symlink".into() } else { "paths on disk".into() });
+        *ROOT_OVERRIDE.lock().unwrap() = Some(root);
+        tree.0 = Some(base);
+    }
     hooks::set_collide(w.collide);
     hooks::set_shard_amount(2);
     hooks::take_edges();
@@ -451,13 +477,16 @@ pub const INSTR_BIN: &str = "/verif/target-sched/release/pls-instr";
 
 #[derive(Clone, Debug, Serialize, Deserialize)]
 pub struct Sess {
+    /// the client names the workspace and its documents through a symlinked directory
+    #[serde(default)]
+    pub via_link: bool,
     pub files: Vec<(u8, MiniFile)>,
     /// (file, new version, requests pipelined right after the notification: (kind, line))
     pub steps: Vec<(u8, MiniFile, Vec<(u8, u8)>)>,
 }
 
 pub fn sess() -> impl Strategy<Value = Sess> {
-    (vec((0u8..4, mini_file()), 1..=4), vec((0u8..4, mini_file(), vec((0u8..13, 0u8..10), 1..=4)), 1..=5)).prop_map(|(files, steps)| Sess { files, steps })
+    (any::<bool>(), vec((0u8..4, mini_file()), 1..=4), vec((0u8..4, mini_file(), vec((0u8..13, 0u8..10), 1..=4)), 1..=5)).prop_map(|(via_link, files, steps)| Sess { via_link, files, steps })
 }
 
 static SESS_N: std::sync::atomic::AtomicUsize = std::sync::atomic::AtomicUsize::new(0);
@@ -476,13 +505,20 @@ pub fn check_sess(ctx: &Ctx, s: &Sess, info: &mut CaseInfo) -> Outcome {
         }
     }
     let _rm = Rm(base.clone());
-    let root = format!("{}/s", base);
-    let real = |p: u8| PATHS[p as usize % 4].replacen("/vw/s", &root, 1);
-    let _ = std::fs::create_dir_all(format!("{}/a", root));
-    let _ = std::fs::create_dir_all(format!("{}/b", root));
+    let disk_root = format!("{}/s", base);
+    let _ = std::fs::create_dir_all(format!("{}/a", disk_root));
+    let _ = std::fs::create_dir_all(format!("{}/b", disk_root));
     for (p, m) in &s.files {
-        let _ = std::fs::write(real(*p), render(m));
+        let _ = std::fs::write(PATHS[*p as usize % 4].replacen("/vw/s", &disk_root, 1), render(m));
     }
+    // a workspace reached through a symlink: every path the client sends differs from its canonical form
+    let root = if s.via_link && std::os::unix::fs::symlink(&disk_root, format!("{}/l", base)).is_ok() {
+        info.classes.push("workspace via symlink".into());
+        format!("{}/l", base)
+    } else {
+        disk_root.clone()
+    };
+    let real = |p: u8| PATHS[p as usize % 4].replacen("/vw/s", &root, 1);
     let log = format!("{}/locklog.txt", base);
     let mut srv = match LspSession::start_bin(INSTR_BIN, Some(&root), &[("VERIF_DASHMAP_COLLIDE", "1"), ("VERIF_LOCKLOG", log.as_str()), ("VERIF_DASHMAP_SHARDS", "2")]) {
         Ok(x) => x,
@@ -612,7 +648,7 @@ pub fn check_sess(ctx: &Ctx, s: &Sess, info: &mut CaseInfo) -> Outcome {
 }
 
 pub fn run(ctx: &Ctx) {
-    ctx.run_prop_shrink("workloads", ctx.tier.pick(3000, 100_000), 1, 600, || (vec(wop(), 4..=14), any::<bool>()).prop_map(|(ops, collide)| Workload { ops, collide }), |w, info| check_workload(w, info));
+    ctx.run_prop_shrink("workloads", ctx.tier.pick(3000, 100_000), 1, 600, || (vec(wop(), 4..=14), any::<bool>(), prop_oneof![3 => Just(0u8), 1 => Just(1u8), 2 => Just(2u8)]).prop_map(|(ops, collide, disk)| Workload { ops, collide, disk }), |w, info| check_workload(w, info));
     let failed = |ctx: &Ctx| !ctx.violations.lock().unwrap().is_empty();
     if !failed(ctx) {
         ctx.run_prop_shrink("schedules", ctx.tier.pick(1500, 40_000), 1, 600, conc, |c, info| check_conc(c, info));
